@@ -838,6 +838,272 @@ def check_man(case):
     return dict(nt=any(z != Y for z in zl) or (X, Y) != ("UTC", "UTC"), cls=cls, ratio=ratio)
 
 
+# ------------------------------------------------------------------ Clohessy-Wiltshire
+
+
+@st.composite
+def cw_case(draw, shard, tier):
+    leaps = t3.leap_days()
+    us = draw(gd.instants(leaps, lo_mjd=gd.LO_MJD + 3, hi_mjd=gd.HI_MJD - 3))
+    if not gd.leap_free(us - US, us + 4 * 3600 * US, leaps):
+        us += 2 * US_DAY
+    X, Y = draw(label_pair())
+    dt = draw(st.sampled_from([0, 1, 60 * US]) | gd.uniform_int(1, 3 * 3600 * US))
+    mans = []
+    for _ in range(draw(st.integers(0, 2))):
+        mans.append(dict(kind="impulsive", off=draw(gd.uniform_int(1, 3 * 3600 * US)), Z=iers.SCALES[draw(st.integers(0, 5))],
+                         dv=[draw(go.uniform(-1.0, 1.0)) for _ in range(3)]))
+    if draw(st.integers(0, 2)) == 0:
+        mans.append(dict(kind="continuous", off=draw(gd.uniform_int(1, 3 * 3600 * US)), dur=float(draw(st.integers(10, 900))),
+                         Z=draw(st.sampled_from(["UTC", "TAI", "TT", "GPS", "TDB"])),
+                         accel=[draw(go.uniform(-1e-3, 1e-3)) for _ in range(3)]))
+    if mans and draw(st.integers(0, 3)) == 0:
+        dt = mans[0]["off"]  # asked exactly at the burn
+    return dict(us=us, X=X, Y=Y, dt=dt, mans=mans, sma=draw(go.uniform(6.7e6, 4.3e7)), ori=draw(st.sampled_from(["QSW", "TNW"])),
+                x0=[draw(go.uniform(-2000.0, 2000.0)) for _ in range(3)] + [draw(go.uniform(-2.0, 2.0)) for _ in range(3)])
+
+
+def run_cw(case, X, Y, zlabels, offs, dt):
+    from beyond.dates import timedelta
+    from beyond.frames.frames import HillFrame
+    from beyond.orbits import Orbit
+    from beyond.orbits.man import ContinuousMan, ImpulsiveMan
+    from beyond.propagators.cw import ClohessyWiltshire
+
+    us = case["us"]
+    frame = HillFrame(orientation=case["ori"])
+    orb = Orbit(list(case["x0"]), date_of(us, Y), "cartesian", frame, ClohessyWiltshire(case["sma"], frame=frame))
+    mans = []
+    for m, Z, off in zip(case["mans"], zlabels, offs):
+        when = date_of(us + off, Z)
+        if m["kind"] == "impulsive":
+            mans.append(ImpulsiveMan(when, m["dv"]))
+        else:
+            mans.append(ContinuousMan(when, timedelta(seconds=m["dur"]), accel=m["accel"]))
+    if mans:
+        orb.maneuvers = mans
+    res = orb.propagate(date_of(us + dt, X))
+    return np.asarray(res.base, float), res.date
+
+
+def check_cw(case):
+    us = case["us"]
+    X, Y = lab(us + case["dt"], case["X"]), lab(us, case["Y"])
+    if inexact(Y):
+        Y = "GPS"  # the legs are chained with date + (date' - date): reading arithmetic in the epoch's scale
+    zl = [lab(us + m["off"], m["Z"]) for m in case["mans"]]
+    offs = [m["off"] for m in case["mans"]]
+    dt = case["dt"]
+    if inexact(X, *zl):
+        # a UT1 / TDB date is good to 1 us: keep the asked instant 20 us away from the burn edges it is compared with
+        edges = []
+        for m in case["mans"]:
+            edges += [m["off"]] + ([m["off"] + int(m["dur"] * US)] if m["kind"] == "continuous" else [])
+        for _ in range(4):
+            if any(abs(dt - e) < 20 for e in edges):
+                dt += 40
+    if (X, Y) == ("UTC", "UTC") and (not zl or set(zl) == {"UTC"}):
+        X = "TT"
+    ref, rdate = run_cw(case, "UTC", "UTC", ["UTC"] * len(zl), offs, dt)
+    got, gdate = run_cw(case, X, Y, zl, offs, dt)
+    desc = (f"ClohessyWiltshire(sma {case['sma']:.0f}, {case['ori']}) epoch {date_of(us, Y)}, maneuvers "
+            f"{[(m['kind'], str(date_of(us + o, z))) for m, o, z in zip(case['mans'], offs, zl)]}, "
+            f"propagate({date_of(us + dt, X)})")
+    labels = (X, Y) + tuple(zl)
+    fuzzy = inexact(*labels)
+    # 1 us on a burn instant moves the state by dv x 1 us (impulse) / accel x duration x 1 us (thrust)
+    kick = sum(float(np.linalg.norm(m["dv"])) if m["kind"] == "impulsive" else float(np.linalg.norm(m["accel"])) * m["dur"]
+               for m in case["mans"])
+    speed = float(np.linalg.norm(ref[3:])) + kick
+    extra_pos = (speed + kick) * 4e-6 if fuzzy else speed * 1e-9
+    n = math.sqrt(MU_E / case["sma"] ** 3)
+    extra_vel = (1e-3 * 2 + 3 * n * speed) * 4e-6 if fuzzy else 1e-12
+    ratio = compare_states(desc, got, ref, 0.0, kind="cw-label-dependent", extra_pos=extra_pos, extra_vel=extra_vel)
+    same_instant(desc, gdate, rdate, labels)
+    cls = [f"eop:{t3.cfg()}", f"X:{X}", f"Y:{Y}", f"mans:{len(zl)}"] + sorted({f"Z:{z}" for z in zl})
+    if any(z != Y for z in zl):
+        cls.append("maneuver-label-differs-from-epoch")
+    if any(o < dt for o in offs):
+        cls.append("asked-after-a-burn")
+    return dict(nt=True, cls=cls, ratio=ratio)
+
+
+# ------------------------------------------------------------------ JPL ephemeris and body-centred frames
+
+JPL_BODIES = ["Moon", "Sun", "EarthBarycenter", "MarsBarycenter", "Mars", "Mercury", "VenusBarycenter", "JupiterBarycenter"]
+JPL_FRAMES = ["Moon", "Sun", "Mars", "EarthBarycenter", "SolarSystemBarycenter"]
+JPL_LO_MJD, JPL_HI_MJD = 51546, gd.HI_MJD - 12
+
+
+def setup_jpl(shard):
+    env.eop("real")
+    t3._CFG["name"] = "real"
+    env.jpl()
+    from beyond.env import jpl
+
+    jpl.create_frames()
+
+
+@st.composite
+def jpl_case(draw, shard, tier):
+    us = draw(gd.instants(t3.leap_days(), lo_mjd=JPL_LO_MJD, hi_mjd=JPL_HI_MJD))
+    if draw(st.integers(0, 3)) == 0:
+        # inside the last 70 s of a UTC day: TAI / TT / TDB (and GPS from 19 s on) already read the next day
+        us = (us // US_DAY + 1) * US_DAY - draw(gd.mixed_int(1, 70 * US, 2))
+        us = gd.push_out_of_leap_windows(us, t3.leap_days())
+    X = iers.SCALES[draw(st.integers(1, 5))]
+    op = draw(st.sampled_from(["get_orbit", "get_orbit", "frame", "propagator"]))
+    case = dict(us=us, X=X, op=op, body=draw(st.sampled_from(JPL_BODIES)))
+    if op == "frame":
+        case["frame"] = draw(st.sampled_from(JPL_FRAMES))
+        case["el"] = draw(go.elements(hyperbolic=False, emax_ell=0.5, rp_range=(1.05, 6.0)))
+    return case
+
+
+def check_jpl(case):
+    from beyond.env import jpl
+    from beyond.orbits import StateVector
+
+    us, op = case["us"], case["op"]
+    X = lab(us, case["X"])
+    out = {}
+    for L in ("UTC", X):
+        d = date_of(us, L)
+        if op == "get_orbit":
+            res = jpl.get_orbit(case["body"], d)
+        elif op == "propagator":
+            if case["body"] in ("Moon", "Sun", "Mars", "Mercury"):
+                res = jpl.get_body(case["body"]).propagator.propagate(d)  # Body from the .tpc file
+            else:
+                res = jpl.get_propagator(case["body"]).propagate(d)
+        else:
+            res = StateVector(go.cart_of(case["el"]), d, "cartesian", "EME2000").copy(frame=case["frame"])
+        out[L] = (np.asarray(res.copy(form="cartesian").base, float), res.date, str(res.frame))
+    (g, gdate, gframe), (r, rdate, rframe) = out[X], out["UTC"]
+    what = f"{op}({case['body'] if op != 'frame' else 'EME2000 -> ' + case['frame']}, {date_of(us, X)})"
+    if gframe != rframe:
+        raise Violation("jpl-frame", f"{what}: result in {gframe}, {rframe} for the UTC label")
+    # the segments are evaluated at a TDB Julian date held in a double (one ulp = 40 us); the TDB reading
+    # reached from two labels may differ by 1 us and flip its last bit
+    speed = float(np.linalg.norm(r[3:])) if op != "frame" else 6.0e4
+    acc = 0.02 if op != "frame" else 0.06
+    window = 1.5 * JD_QUANTUM + (2e-6 if inexact(X) else 0.0)
+    ratio = compare_states(what, g, r, 0.0, kind=f"jpl-{op}-label-dependent", extra_pos=speed * window,
+                           extra_vel=acc * window + 1e-9)
+    same_instant(what, gdate, rdate, (X,))
+    cls = [f"eop:{t3.cfg()}", f"X:{X}", f"op:{op}", f"body:{case['body']}" if op != "frame" else f"frame:{case['frame']}"]
+    if straddle(us, (X,)):
+        cls.append("label-reads-the-next-day")
+    return dict(nt=True, cls=cls, ratio=ratio)
+
+
+# ------------------------------------------------------------------ station events (visibility, stations_listeners)
+
+
+@st.composite
+def station_events_case(draw, shard, tier):
+    leaps = t3.leap_days()
+    us = draw(gd.instants(leaps, lo_mjd=gd.LO_MJD + 3, hi_mjd=gd.HI_MJD - 3))
+    if not gd.leap_free(us - US, us + US_DAY, leaps):
+        us += 2 * US_DAY
+    X, Y = draw(label_pair())
+    rp = 6378136.3 + draw(go.uniform(5e5, 1.4e6))
+    e = 10 ** draw(go.uniform(-3, -1.7))
+    M = draw(go.uniform(0, 2 * math.pi))
+    el = dict(body="Earth", a=rp / (1 - e), e=e, i=draw(go.uniform(0.87, 1.75)), raan=draw(go.uniform(0, 2 * math.pi)),
+              argp=draw(go.uniform(0, 2 * math.pi)), anom=M, nu=tb.E2nu(tb.solve_kepler_E(M, e), e))
+    return dict(us=us, X=X, Y=Y, X2=iers.SCALES[draw(st.integers(0, 5))], el=el, step=float(draw(st.integers(60, 180))),
+                n=draw(st.integers(40, 110)), at=draw(go.uniform(0.1, 0.6)), dlat=draw(go.uniform(-3.0, 3.0)),
+                dlon=draw(go.uniform(-5.0, 5.0)), alt=float(draw(st.integers(0, 2500))),
+                how=draw(st.sampled_from(["visibility", "listeners"])))
+
+
+_STATIONS = {}
+
+
+def _station_for(case):
+    """Station near the ground track (sub-satellite point of the all-UTC orbit at a drawn fraction of the span)."""
+    from beyond.propagators.kepler import Kepler
+
+    from . import c11
+
+    key = t3_canon(case)
+    if key not in _STATIONS:
+        us = case["us"]
+        when = date_of(us + 60 * US + int(case["at"] * case["n"] * case["step"]) * US, "UTC")
+        p = np.asarray(cart_orbit(case["el"], date_of(us, "UTC"), Kepler()).propagate(when).copy(frame="ITRF", form="cartesian").base,
+                       float)[:3]
+        lat = max(-89.0, min(89.0, round(math.degrees(math.atan2(p[2], math.hypot(p[0], p[1]))) + case["dlat"], 6)))
+        lon = round((math.degrees(math.atan2(p[1], p[0])) + case["dlon"] + 180.0) % 360.0 - 180.0, 6)
+        _STATIONS[key] = c11.station(_SHARD[0], lat, lon, case["alt"])
+    return _STATIONS[key]
+
+
+_SHARD = [0]
+
+
+def t3_canon(case):
+    import json
+
+    return json.dumps([case["us"], case["el"], case["at"], case["dlat"], case["dlon"], case["alt"], case["n"], case["step"]],
+                      sort_keys=True)
+
+
+def setup_station(shard):
+    setup(shard)
+    _SHARD[0] = shard
+
+
+def run_station_events(case, X, Y, X2, sta):
+    from beyond.dates import timedelta
+    from beyond.propagators.kepler import Kepler
+    from beyond.propagators.listeners import stations_listeners
+
+    us, step = case["us"], int(case["step"]) * US
+    orb = cart_orbit(case["el"], date_of(us, Y), Kepler())
+    start = date_of(us + 60 * US, X)
+    stop = date_of(us + 60 * US + case["n"] * step + step // 2, X2)
+    kw = dict(start=start, stop=stop, step=timedelta(microseconds=step))
+    if case["how"] == "visibility":
+        it = sta.visibility(orb, events=True, **kw)
+    else:
+        it = orb.iter(listeners=stations_listeners(sta), **kw)
+    events, nsamples = [], 0
+    for o in it:
+        if o.event is None:
+            nsamples += 1
+        else:
+            c = o.copy(frame="EME2000", form="cartesian")
+            events.append((str(o.event.info), o.date, np.asarray(c.base, float)))
+    return events, nsamples
+
+
+def check_station_events(case):
+    us = case["us"]
+    X, Y, X2 = lab(us, case["X"]), lab(us, case["Y"]), lab(us, case["X2"])
+    if inexact(X):
+        X = "TAI"  # the grid start + k * step is reading arithmetic: uniform scales only (C03)
+    sta = _station_for(case)
+    ref, nref = run_station_events(case, "UTC", "UTC", "UTC", sta)
+    got, ngot = run_station_events(case, X, Y, X2, sta)
+    what = (f"{case['how']} of station {sta.name}: Kepler orbit epoch {date_of(us, Y)}, start {date_of(us + 60 * US, X)}, "
+            f"stop labelled {X2}")
+    if [e[0] for e in got] != [e[0] for e in ref] or ngot != nref:
+        raise Violation("station-events-differ", f"{what}: events {[e[0] for e in got]} and {ngot} samples; the all-UTC run "
+                                                 f"gives {[e[0] for e in ref]} and {nref} samples")
+    tol = 3 + (2 if inexact(X, Y, X2) else 0)
+    worst = 0
+    for (name, gd_, gs), (_, rd, rs) in zip(got, ref):
+        off = abs(t3.td_us(gd_ - rd))
+        worst = max(worst, off)
+        if off > tol:
+            raise Violation("station-event-date-label-dependent",
+                            f"{what}: {name} at {gd_}, the all-UTC run finds it at {rd} ({off} us apart)")
+        compare_states(f"{what}: state at {name}", gs, rs, tol * 1e-6, kind="station-event-state-label-dependent")
+    return dict(nt=len(ref) > 0, cls=[f"eop:{t3.cfg()}", f"X:{X}", f"Y:{Y}", f"X2:{X2}", case["how"], f"events:{min(len(ref), 6)}"],
+                ratio=worst / tol)
+
+
 # ------------------------------------------------------------------ facets
 
 FACETS = [
@@ -850,6 +1116,12 @@ FACETS = [
     Facet("maneuvers", man_case, check_man, setup=setup,
           rule="some maneuver date is labelled differently from the epoch, or (X, Y) != (UTC, UTC)",
           quick=(8, 25), thorough=(16, 250)),
+    Facet("cw", cw_case, check_cw, setup=setup,
+          rule="every case (some label is not UTC by construction)", quick=(4, 150), thorough=(16, 1000)),
+    Facet("jpl", jpl_case, check_jpl, setup=setup_jpl,
+          rule="every case (label is never UTC)", quick=(4, 100), thorough=(16, 800)),
+    Facet("station_events", station_events_case, check_station_events, setup=setup_station, shrink_quick=False,
+          rule="at least one AOS / LOS / MAX event in the all-UTC run", quick=(6, 4), thorough=(16, 25)),
     Facet("frames", frame_case, check_frames, setup=setup,
           rule="source frame differs from target frame", quick=(8, 300), thorough=(32, 1500)),
     Facet("interp", interp_case, check_interp, setup=setup,
